@@ -72,8 +72,8 @@ def run_check(ses, name, tier, timeout, only=None):
 
     def work(q):
         ctx, obs, sh = q
-        r = solve.check_batch(ctx, obs, timeout, ses.workdir)
-        if r['status'] == 'unsat':
+        r = {'status': 'skip', 'time': 0.0}
+        if False:
             return q, r, []
         # something fails (or the batch is undecided): find out which obligations, individually
         bad = []
@@ -88,7 +88,7 @@ def run_check(ses, name, tier, timeout, only=None):
             for ob, r1 in bad:
                 fails.append({'shape': sh, 'obligation': ob.name, 'kind': ob.kind, 'line': ob.line, 'clause': ob.info.get('clause'), 'status': r1['status'],
                               'output': (r1.get('output') or '')[:1500], 'ctx': ctx, 'ob': ob})
-            if r['status'] != 'unsat' and not bad:
+            if r['status'] not in ('unsat', 'skip') and not bad:
                 fails.append({'shape': sh, 'obligation': 'batch', 'kind': 'batch', 'line': 0, 'clause': None, 'status': r['status'], 'output': r.get('output', '')[:500], 'ctx': ctx, 'ob': obs[0]})
     return {'check': name, 'function': short_fn(cfg['func']), 'box': {'N<=': box[0], 'M<=': box[1]}, 'shapes': shapes, 'queries': len(queries), 'obligations': nobs, 'failures': fails, 'errors': errors,
             'wall_s': round(time.time() - t0, 2), 'solver_s': round(solver_s, 2)}
